@@ -592,7 +592,7 @@ def one_history(ctx, rng, k):
 
 def run_shard(ctx):
     logging.disable(logging.CRITICAL)
-    for k in range(ctx.n(500, 20000)):
+    for k in range(ctx.n(1000, 20000)):
         if ctx.out_of_time():
             break
         ctx.guarded(one_history, ctx, ctx.rng, k, timeout=120)
